@@ -178,6 +178,10 @@ class SpeculationFailed(Exception):
     """non-forking evaluation attempt had to be abandoned (would fork, write the heap, or is not provably safe)"""
 
 
+class EffectsInCalleeClause(Exception):
+    """a clause of a callee's contract reads the ghost effect log while being assumed at a call site"""
+
+
 class Infeasible(Exception):
     """Current path condition is unsatisfiable: path abandoned."""
 
